@@ -34,6 +34,14 @@ private theorem hpar_of_creatable {arg : Path} {fs : FS} (hc : Creatable arg fs)
   · rw [h] at h'; simp at h'
   · exact h'
 
+/-! ### Shape of the transliteration -/
+
+/-- the `case rel.Dict` arm of the entry switch (written out in the model so that the recursion is
+structural) is `outputTupleDir` of the entry, as in the Go code -/
+theorem outputEntry_dict_is_outputTupleDir (e : Key × Val) (es : List (Key × Val)) (φ : List Nat) (p : Path)
+    (dry : Bool) : outputEntry (.dict (e :: es)) φ p dry = outputTupleDir (.dict (e :: es)) φ p dry := by
+  simp [outputEntry, outputTupleDir]
+
 /-! ### The dry pass -/
 
 /-- dry_predicts: the validation pass changes nothing and succeeds exactly on the valid descriptions
